@@ -395,6 +395,20 @@ func init() {
 			mid = -1
 		}
 		js = append(js, symJobs("c20", "ZZ_C20_Sym", []seqCfg{{"be_writing", 2, 0, 0, 0}, {"bw_w10_pending", 0, 0, 2, 10}}, mid, 1)...)
+		// loaders: single/bulk loads, explicit and automatic refreshes, every outcome incl. panics (concrete clock)
+		lsteps := 1
+		if tier == "thorough" {
+			lsteps = 2
+		}
+		for _, lc := range []struct {
+			name          string
+			ref, deferred int
+		}{{"plain_inline", 0, 0}, {"refresh_writing_inline", 2, 0}, {"refresh_writing_deferred", 2, 1}} {
+			j := mk("c20.loads."+lc.name, rootPkg, "ZZ_C20_Loads", with(cfgParams(0, lc.ref, 0, 0, lc.deferred, 0), "steps", lsteps),
+				func(b *Bounds) { b.Unwind = 16; b.MapOrders = 2 })
+			j.Labels = []string{"c20l.stats.loads_equal_loader_invocations", "c20l.loader_panic_surfaces"}
+			js = append(js, j)
+		}
 		ap := 2
 		if tier == "thorough" {
 			ap = 3
